@@ -1,7 +1,100 @@
 import ConfModel.Driver.Common
+import ConfModel.Model.DataTracer
+import ConfModel.Spec.Envelopes
 namespace ConfModel.Driver.C14
-open Lean ConfModel.Driver
+open Lean ConfModel.Driver ConfModel.DataTracer ConfModel.Envelopes
 
-def handle : Handler := fun op _inp _impl => bad ("C14: unknown op " ++ op)
+def errName : EndErr → String
+  | .nil => "nil"
+  | .inner => "inner"
+  | .other => "other"
+
+/-- same canonical form as `VerifBodyEvents` on the Go side -/
+def render (side : String) : NEv → String
+  | .data none n i => s!"{side}d:-:-:{n}:{i}"
+  | .data (some e) n i => s!"{side}d:{e.flags.toNat}:{e.len}:{n}:{i}"
+  | .endStream x => s!"{side}s:{hex x}"
+  | .bodyEnd e => s!"{side}e:{errName e}"
+
+/-- the decompressor of the run: a finite table supplied by the harness (real decompressor
+outputs); `"!"` = it failed -/
+def decOf (table : List (String × Bytes × Option Bytes)) (name : String) (payload : Bytes) : Option Bytes :=
+  match table.find? (fun t => t.1 == name && t.2.1 == payload) with
+  | some t => t.2.2
+  | none => none
+
+def decTable (j : Json) : List (String × Bytes × Option Bytes) :=
+  (arr j).map fun row =>
+    match strList row with
+    | [n, p, x] => (n, unhex p, if x == "!" then none else some (unhex x))
+    | _ => ("?", [], none)
+
+/-- configuration of one side from the header fields of the input -/
+def cfgOf (inp : Json) (isReq : Bool) (table : List (String × Bytes × Option Bytes)) : Cfg :=
+  let props := propsFromHeaders (str (field inp "ct")) (str (field inp "ce"))
+  let name := if props.2 == 1 then str (field inp "cce") else if props.2 == 2 then str (field inp "ge") else "?"
+  { isRequest := isReq, isStream := props.1, dec := decOf table name }
+
+/-- the wrapper operations of a reader session: reads, the ending, what follows -/
+def readerOps (reads : List Bytes) (ending : String) (post : List String) : List Op × EndErr :=
+  let datas := reads.map Op.data
+  let endErr : EndErr := match ending with
+    | "eof" | "eofdata" => .nil
+    | "err" | "errdata" | "closeerr" => .inner
+    | _ => .other
+  let readAfter : EndErr := if ending == "err" || ending == "errdata" then .inner else .nil
+  let closeAfter : EndErr := if ending == "closeerr" then .inner else .other
+  let postOps := post.flatMap fun a => if a == "c" then [Op.fin closeAfter] else [Op.data [], Op.fin readAfter]
+  (datas ++ [Op.fin endErr] ++ postOps, endErr)
+
+def stepsOf (j : Json) : List (String × String) := (arr j).map fun s => (str (field s "d"), str (field s "e"))
+
+def tailName : Tail → String
+  | .clean => "clean"
+  | .partialPrefix _ => "partial-prefix"
+  | .partialPayload _ _ => "partial-payload"
+
+def handle : Handler := fun op inp impl =>
+  match op with
+  | "trace" =>
+    if !(isNull (field impl "panic")) then
+      { agree := false, holds := false, why := "panic: " ++ str (field impl "panic") } else
+    let isReq := str (field inp "side") == "req"
+    let side := if isReq then "q" else "p"
+    let reads := (strList (field inp "reads")).map unhex
+    let ending := str (field inp "ending")
+    let post := strList (field inp "post")
+    let c := cfgOf inp isReq (decTable (field impl "dec"))
+    let (ops, endErr) := readerOps reads ending post
+    let body := reads.flatten
+    -- implementation's observations
+    let implEvents := (strList (field impl "events")).filter (· != "Q")
+    let seen := stepsOf (field impl "seen")
+    let inner := stepsOf (field impl "inner")
+    let completions := nat (field impl "completions")
+    let done := nat (field impl "done")
+    -- model
+    let mEvents := (observe c ops).map (render side)
+    let mDone := if isReq then 0 else 1
+    -- property: the trace is the specified one; the caller saw what the inner reader returned
+    -- (all bytes of the body, in order); the trace was delivered once
+    let specA := (specTrace c body endErr).map (render side)
+    let specB := (specTraceAlt c body endErr).map (render side)
+    let traceOk := implEvents == specA || implEvents == specB
+    let seenBytes := String.join (seen.map (·.1))
+    let passOk := seen == inner && seenBytes == hex body
+    let holds := traceOk && passOk && completions == 1
+    let p := parse body
+    { agree := implEvents == mEvents && completions == 1 && done == mDone && passOk,
+      holds := holds,
+      nontrivial := c.isStream && reads.length > 1 && (!p.1.isEmpty || p.2 != .clean),
+      model := Json.mkObj [("events", toJson mEvents), ("done", toJson mDone)],
+      cls := (if c.isStream then tailName p.2 else "non-stream") ++
+        (if mEvents.any (·.startsWith "ps:") then "+eos" else ""),
+      why := if holds then "" else
+        (if !traceOk then "trace " ++ toString implEvents ++ " but the body's envelopes give " ++ toString specA
+         else if !passOk then "caller saw " ++ toString seen ++ " but the inner reader returned " ++ toString inner
+         else s!"trace delivered {completions} times") }
+  | _ => bad ("C14: unknown op " ++ op)
 
 end ConfModel.Driver.C14
